@@ -228,20 +228,26 @@ static void mon_store(void* addr, int order) {
 static void mon_fence(int order) { if (order == mo_seq_cst) mon_unfenced_era_store = 0; }   /* ... and must be followed by a seq_cst fence */
 
 /* ---------------- invariant Inv_K ---------------- */
-unsigned g_pos[NSLOT];                  /* ghost witness of the free chain: height of slot i above the chain end, 0 = not on the chain */
-/* carry the witness over a step: a slot that stays free keeps its height (push/pop happen at the head only),
- * a slot that became free is the new head, a slot that is counted in is not on the chain */
+unsigned g_pos[NSLOT], g_height;        /* ghost witness of the free chain: height of slot i above the chain end (0 = not on the chain), height of the head */
+/* Carry the witness over a step.  Pushes and pops happen at the head only: a slot that stays free keeps its height; a slot taken from the
+ * chain was the head; a slot that became free is the new head (it inherits the height of a slot taken in the same step).  Anything else
+ * (two slots freed at once: initialize, a new block) gets its witness from the harness; otherwise the check below fails. */
 static void witness_sync(void) {
-  unsigned nfree = 0;
-  for (int i = 0; i < NSLOT; i++) if (slot_live(i) && SLOT(i)->guard_cnt == 0) nfree++;
+  unsigned char npop = 0, npush = 0; unsigned popped_h = 0;
   for (int i = 0; i < NSLOT; i++) {
-    if (slot_live(i) && SLOT(i)->guard_cnt == 0) { if (g_pos[i] == 0) g_pos[i] = nfree; }
-    else g_pos[i] = 0;
+    _Bool free_now = slot_live(i) && SLOT(i)->guard_cnt == 0;
+    if (g_pos[i] > 0 && !free_now) { if (npop < 2) npop++; popped_h = g_pos[i]; g_pos[i] = 0; }
+    if (g_pos[i] == 0 && free_now) { if (npush < 2) npush++; }
   }
+  if (npop == 1 && npush == 0) g_height = g_height - 1;
+  if (npop == 0 && npush == 1) g_height = g_height + 1;
+  if (npush == 1 && npop <= 1)
+    for (int i = 0; i < NSLOT; i++) if (g_pos[i] == 0 && slot_live(i) && SLOT(i)->guard_cnt == 0) g_pos[i] = npop ? popped_h : g_height;
 }
 static era_t slot_era(const struct hazard_era* s) { return (era_t)(s->value.w >> 1); }
 struct inv_res { _Bool count_ok, rest_ok; };
 /* a, b: live operand guards (or NULL) */
+_Bool g_no_sync;                        /* set while the invariant is ASSUMED: the nondeterministic witness is taken as it is */
 static struct inv_res inv_eval(const struct guard* a, const struct guard* b) {
   struct inv_res r; r.count_ok = 1; r.rest_ok = 1;
   if (!(era_clock >= 1 && era_clock < ERA_MAX)) r.rest_ok = 0;
@@ -253,23 +259,25 @@ static struct inv_res inv_eval(const struct guard* a, const struct guard* b) {
     for (int i = 0; i < NSLOT; i++) if (slot_live(i)) { if (g_others[i] != 0 || SLOT(i)->guard_cnt != 0) r.count_ok = 0; }
     if (g_cb.last_hazard_era != 0) r.rest_ok = 0;
     for (int i = 0; i < NSLOT; i++) g_pos[i] = i < XV_K ? (unsigned)(XV_K - i) : 0;   /* witness for the chain initialize will build on first use */
+    g_height = XV_K;
     return r;
   }
   if (g_td.control_block != &g_cb) { r.rest_ok = 0; return r; }
   /* the free chain: duplicate-free, inside the slot universe, null-terminated, and it contains exactly the slots nobody counts in.
-   * Decided with the ghost witness g_pos (height of a free slot above the chain end, 0 = not free) instead of walking the chain:
-   * the head has height nfree, a slot of height 1 links to null, a slot of height h > 1 links to a free slot of height h-1.
-   * These local conditions hold for some g_pos exactly when the chain from hint visits every free slot once and then ends. */
-  witness_sync();
-  _Bool on[NSLOT]; unsigned nfree = 0;
-  for (int i = 0; i < NSLOT; i++) { on[i] = slot_live(i) && g_pos[i] > 0; if (on[i]) nfree++; }
-  if (g_td.hint == 0) { if (nfree != 0) r.rest_ok = 0; }
-  else { _Bool ok = 0; FOR_SLOT(i, g_td.hint) ok = on[i] && g_pos[i] == nfree; if (!ok) r.rest_ok = 0; }
+   * Decided with the ghost witness (g_pos, g_height) instead of walking the chain: the head has height g_height, a slot of height 1
+   * links to null, a slot of height h > 1 links to a free slot of height h-1, free slots have pairwise different heights in 1..g_height.
+   * Then the chain from hint visits g_height free slots of heights g_height..1 and ends, and no other free slot can exist. */
+  if (!g_no_sync) witness_sync();
+  _Bool on[NSLOT];
+  for (int i = 0; i < NSLOT; i++) on[i] = slot_live(i) && g_pos[i] > 0;
+  if (g_td.hint == 0) { if (g_height != 0) r.rest_ok = 0; }
+  else { _Bool ok = 0; FOR_SLOT(i, g_td.hint) ok = on[i] && g_pos[i] == g_height; if (!ok) r.rest_ok = 0; }
   for (int i = 0; i < NSLOT; i++) if (on[i]) {
-    if (!SLOT(i)->value.mark) r.rest_ok = 0;
+    if (!SLOT(i)->value.mark || g_pos[i] > g_height) r.rest_ok = 0;
     const struct hazard_era* l = SLOT(i)->value.lp;
     if (g_pos[i] == 1) { if (l != 0) r.rest_ok = 0; }
     else { _Bool ok = 0; FOR_SLOT(j, l) ok = on[j] && g_pos[j] + 1 == g_pos[i]; if (!ok) r.rest_ok = 0; }
+    for (int j = i + 1; j < NSLOT; j++) if (on[j] && g_pos[j] == g_pos[i]) r.rest_ok = 0;
   }
   for (int i = 0; i < NSLOT; i++) if (slot_live(i)) {
     const struct hazard_era* s = SLOT(i);
@@ -292,6 +300,7 @@ static struct inv_res inv_eval(const struct guard* a, const struct guard* b) {
   return r;
 }
 static _Bool inv_ok(const struct guard* a, const struct guard* b) { struct inv_res r = inv_eval(a, b); return r.count_ok && r.rest_ok; }
+static _Bool inv_assumed(const struct guard* a, const struct guard* b) { g_no_sync = 1; _Bool r = inv_ok(a, b); g_no_sync = 0; return r; }
 /* a guard that holds an object holds a slot (GI1); a guard that holds nothing holds no slot (GI2) */
 static _Bool gi1(const struct guard* g) { return MP_get(g->ptr) == 0 || g->he != 0; }
 static _Bool gi2(const struct guard* g) { return g->he == 0 || g->ptr != 0; }
@@ -358,7 +367,7 @@ static void havoc_state(const struct guard* a, const struct guard* b) {
     in_others[i] = nondet_u64(); in_era[i] = nondet_u64(); in_link[i] = nondet_uint(); in_mark[i] = nondet_bool();
     XV_ASSUME(in_era[i] < ERA_MAX && in_others[i] < CNT_MAX);   /* fewer than 2^62 guard objects */
     g_others[i] = slot_live(i) ? in_others[i] : 0;
-    SLOT(i)->guard_cnt = nondet_u64(); g_pos[i] = nondet_uint();
+    SLOT(i)->guard_cnt = nondet_u64(); g_pos[i] = nondet_uint(); g_height = nondet_uint();
     SLOT(i)->value.mark = in_mark[i];
     SLOT(i)->value.lp = slot_of(in_link[i]);
     SLOT(i)->value.w = in_mark[i] ? nondet_uptr() : (uintptr_t)(in_era[i] << 1);
@@ -366,7 +375,7 @@ static void havoc_state(const struct guard* a, const struct guard* b) {
   g_obj.next = 0; g_obj.construction_era = nondet_u64(); g_obj.retirement_era = nondet_u64(); g_obj.deleter = nondet_int(); g_obj.set_deleter_calls = 0;
   g_src = nondet_uptr(); g_scan_calls = 0; g_acquire_entry_calls = 0; xv_threw = 0; xv_clock = nondet_u64(); XV_ASSUME(xv_clock < CNT_MAX);
   mon_src_loads = 0; mon_era_loads = 0; mon_unfenced_era_store = 0; mon_src_load_unfenced = 0; mon_last_slot_store_release = 1;
-  XV_ASSUME(inv_ok(a, b));
+  XV_ASSUME(inv_assumed(a, b));
   if (a) XV_ASSUME(gi1(a) && gi2(a));
   if (b) XV_ASSUME(gi1(b) && gi2(b));
   snapshot();
@@ -390,6 +399,7 @@ static void acq_havoc(void) {
   for (int i = 0; i < NSLOT; i++) {
     SLOT(i)->guard_cnt = nondet_u64(); SLOT(i)->value.mark = nondet_bool(); SLOT(i)->value.lp = any_slot_or_null(); SLOT(i)->value.w = nondet_uptr(); g_pos[i] = nondet_uint();
   }
+  g_height = nondet_uint();
   g_cb.last_hazard_era = any_slot_or_null(); g_cb.last_era = nondet_u64();
   g_td.hint = any_slot_or_null(); g_td.control_block = nondet_bool() ? &g_cb : (struct tcb*)0;
   g_number_of_active_hes = nondet_size(); g_acquire_entry_calls = nondet_uint();
@@ -510,6 +520,7 @@ static void h_initialize(void) {
 #ifdef XV_DYN
     h = XV_K * (1 + g_nblk);
 #endif
+    g_height = h;
     for (int i = 0; i < NSLOT; i++) g_pos[i] = 0;
     for (int i = 0; i < XV_K; i++) g_pos[i] = h--;
 #ifdef XV_DYN
@@ -573,6 +584,7 @@ static void h_dyn_alloc(void) {
     _Bool old_same = 1; for (int i = 0; i < 3 * XV_K; i++) if (slot_live(i)) old_same = old_same && slot_same(i);
     XV_OBL("he.dyn.new_block", old_same);
     for (int j = 0; j < XV_NEWMAX; j++) g_pos[3 * XV_K + j] = (size_t)j < hes && j > 0 ? (unsigned)(hes - j) : 0;    /* witness for the chain of the new block */
+    g_height = (unsigned)(hes - 1);
     XV_CANARY("dyn.new_block");
   } else {
     XV_OBL("he.dyn.new_block", !g_new_used && g_cb.total_number_of_hes == total0 && g_cb.he_block == head0 && g_number_of_active_hes == pre_active && slots_same_except(r));
